@@ -13,6 +13,8 @@ compdef = {
   "subs":    [ {"name", "cls", "dims": [] | [n]} ],
   "frees":   [ {"name", "kind": "int"|"bits", "w", "v"} ],       closure constants
   "items":   [ item ],      connects / blocks / lambdas in source order
+  "funcs":   [ {"name", "params": [[pname, w]], "ret": expr, "w": w} ]   optional; @s.func helpers that
+                            return a value, emitted before the items; a later func may call an earlier one
 }
 item = {"k": "connect", "a": path, "b": path_or_const, "flip": bool, "op": "connect"|"//="}
            b may be {"const": v, "w": w_or_None}
@@ -22,13 +24,13 @@ item = {"k": "connect", "a": path, "b": path_or_const, "flip": bool, "op": "conn
 
 path  = [step]; step = ["a", name] | ["i", k] | ["b", k] | ["s", lo, hi]
                         | ["vi", expr] | ["vb", expr]
-stmt  = ["assign", path, expr] | ["tmp", name, expr] | ["if", cond, [stmt], [stmt]]
+stmt  = ["assign", path, expr] | ["tmp", name, expr (, [more names])] | ["if", cond, [stmt], [stmt]]
         | ["for", var, start, stop, step, [stmt]]
 expr  = ["const", w, v] | ["int", v] | ["rd", path, w] | ["tmpv", name, w] | ["lv", name]
         | ["free", name, w|None] | ["bin", op, a, b] | ["shift", op, a, b] | ["inv", a]
         | ["cmp", op, a, b] | ["ife", c, a, b] | ["zext"|"sext"|"trunc", a, w]
         | ["concat", [e...]] | ["red", "and"|"or"|"xor", a] | ["cast", w, a]
-        | ["mkstruct", sname, [e...]]
+        | ["mkstruct", sname, [e...]] | ["fcall", fname, [arg e...], w] | ["param", pname, w]
 """
 
 
@@ -95,6 +97,10 @@ def width(e):
     return e[1]
   if k == "mkstruct":
     return e[3] if len(e) > 3 else None
+  if k == "fcall":
+    return e[3]
+  if k == "param":
+    return e[2]
   raise ValueError(e)
 
 
@@ -131,7 +137,7 @@ def walk_exprs(e):
     yield from walk_exprs(e[2])
   elif k == "cast":
     yield from walk_exprs(e[2])
-  elif k == "mkstruct":
+  elif k in ("mkstruct", "fcall"):
     for x in e[2]:
       yield from walk_exprs(x)
 
